@@ -141,7 +141,8 @@ fn run_packed(kv: &BTreeMap<String, String>) -> i32 {
             // against inaccessible pages; a fault there is the out-of-bounds access
             let exe = std::env::current_exe().expect("own path");
             let st = std::process::Command::new(exe)
-                .args(["guardteddy", kv.get("case").unwrap(), kv.get("len").unwrap(), kv.get("off").unwrap(), kv.get("pad").unwrap()])
+                .args(["guardteddy", kv.get("case").unwrap(), kv.get("len").unwrap(), kv.get("off").unwrap(), kv.get("pad").unwrap(),
+                       kv.get("end").unwrap_or(kv.get("len").unwrap())])
                 .status()
                 .expect("spawn guard child");
             let bad = !st.success();
@@ -856,6 +857,8 @@ pub fn guardteddy(args: &[String]) -> i32 {
             }
         }
     }
+    // span end (C10's pk_teddy_end: a span ending inside the haystack); the whole haystack otherwise
+    let end: usize = args.get(4).map(|a| a.parse().unwrap()).unwrap_or(len);
     let w = 4usize.min(len - off);
     unsafe {
         let p = mmap(std::ptr::null_mut(), 3 * PAGE, 3, 0x22, -1, 0);
@@ -873,8 +876,8 @@ pub fn guardteddy(args: &[String]) -> i32 {
                     *h.add(off + i) = alpha[idx[i]];
                 }
                 let hay = std::slice::from_raw_parts(h, len);
-                let got = tup(srch.find_in(hay, Span { start: 0, end: len }));
-                let want = oracle::leftmost(&pats, hay, 0, len, spec.kind, false, false);
+                let got = tup(srch.find_in(hay, Span { start: 0, end }));
+                let want = oracle::leftmost(&pats, hay, 0, end, spec.kind, false, false);
                 if got != want {
                     println!("Teddy find_in: observed={:?} specified={:?} on {:?}", got, want, hay);
                     return 3;
